@@ -47,7 +47,7 @@ ASSUMPTIONS = ['FindInList.star_search yields exactly the matching entries, each
                "leaf restriction of the '**' law is read on the typed searches (type ends in the basetype's leaf key)"]
 BOUNDED = ['FindInPaths / FindInAll harnesses: two / three typed searches, at most two paths per pattern, stub answers enumerated exhaustively', "shapes are enumerated: one ',' list per position, one alias in the last segment, '**' after every proper head and before the last segment, one filter / one literal per position; quick tier: last position (and position 0) only"]
 EXPLANATION = 'relational postconditions of the real unfold_search for the five rewrite rules + Finder.find / do_find composition + a z3 lemma over the glob contract'
-BUDGET_S = {'quick': 1500, 'thorough': 3600}
+BUDGET_S = {'quick': 1800, 'thorough': 2400}
 
 def maxlen(): return max(len(v) for v in C.spec_templates().values())
 
